@@ -40,7 +40,7 @@ fn inv17(x: u32) -> u32 {
 // (a) valid() is the specified circuit
 
 //@ harness: c05_count_valid
-//@ prop: C05
+//@ prop: C05,C02
 //@ tier: quick
 //@ cost: 15
 //@ funcs: Count::valid, Mul::eval, Flp::valid_call_check
@@ -76,7 +76,7 @@ pub fn c05_count_valid() {
 }
 
 //@ harness: c05_sum_valid
-//@ prop: C05
+//@ prop: C05,C02
 //@ tier: quick
 //@ cost: 40
 //@ funcs: Sum::valid, PolyEval::eval, poly_range_check, poly_eval_monomial
@@ -127,7 +127,7 @@ fn range_check_spec(x: &[u32], jr: &[u32], chunk: usize, n: u32) -> u32 {
 }
 
 //@ harness: c05_histogram_valid_2_1
-//@ prop: C05
+//@ prop: C05,C02
 //@ tier: quick
 //@ cost: 60
 //@ funcs: Histogram::valid, parallel_sum_range_checks, ParallelSum::eval, Mul::eval
